@@ -76,12 +76,12 @@ class Peer:
         N = len(forest.X)
         k = min(self.k, N)
         W = np.zeros((len(Q), N), dtype=float)
-        for r in range(len(Q)):
-            d = ((forest.X - Q[r]) ** 2).sum(axis=1)
-            order = np.argsort(d, kind="stable")[:k]
+        if len(Q):
+            D = ((forest.X[None, :, :] - Q[:, None, :]) ** 2).sum(axis=2)
+            order = np.argsort(D, axis=1, kind="stable")[:, :k]
             w = np.arange(k, 0, -1, dtype=float)
             w = w / w.sum()
-            W[r, order] = w
+            W[np.arange(len(Q))[:, None], order] = w[None, :]
         if self.slack:
             W = W * (1.0 + 1e-13)
         self.log.append(("predict", forest.fid, Q.copy(), W.copy()))
